@@ -17,7 +17,7 @@ SPEC = {
                   "parent_valid_local": 3000, "parent_invalid": 3000, "parent_flag_byte_sweeps": 30,
                   "tracer_root_sampled": 1000, "tracer_root_dropped": 1000, "tracer_child_spans": 300,
                   "tracer_root_ids_as_supplied": 3000, "tracer_delegate_root_record-only": 300,
-                  "tracer_delegate_child_spans": 1000},
+                  "tracer_delegate_child_spans": 1000, "tracer_nonparentbased_children_of_unsampled": 500},
         "thorough": {"pairs_within_4ulp": 60000, "ids_near_threshold": 400000, "id_splits_a_ratio_pair": 400000,
                      "id_splits_a_pair_within_4ulp": 4000, "checks_ratio_le0": 400000, "checks_ratio_ge1": 400000,
                      "parent_valid_sampled": 100000, "parent_valid_unsampled": 100000, "parent_invalid": 100000,
